@@ -177,10 +177,10 @@ Section Reporters.
   Record reporter := {
     RS : Type;
     r_init : RS;
-    (* day index, state, node -> new state, chunks written, error returned by Process *)
-    r_process : nat -> RS -> lognode -> RS * list chunk * option cerr;
-    (* what Flush() writes before flushing the buffer *)
-    r_flush : RS -> list chunk;
+    (* map-order oracle for this call, state, node -> new state, chunks written, error returned by Process *)
+    r_process : (list bytes -> list bytes) -> RS -> lognode -> RS * list chunk * option cerr;
+    (* what Flush() writes before flushing the buffer (map-order oracle for this call first) *)
+    r_flush : (list bytes -> list bytes) -> RS -> list chunk;
     (* a partial Go operation (index, nil dereference) that went wrong, if any *)
     r_panic : RS -> option bytes
   }.
@@ -188,24 +188,26 @@ Section Reporters.
   Definition unchecked (s : bytes) : chunk := (s, false).
   Definition checked (s : bytes) : chunk := (s, true).
 
-  (** oracle for per-day range sites (day index, keys) and for flush sites *)
-  Context (perm_day : nat -> list bytes -> list bytes) (perm_flush : list bytes -> list bytes).
+  (** The order in which the runtime delivers the keys of a map that a call
+      ranges over is an argument of [r_process] / [r_flush] (supplied by the
+      walk: one oracle per day for Process, one for Flush), so a reporter
+      value itself does not depend on it. *)
 
   (** regReporterTemplate *)
   Definition rep_template (c : rconfig) (d : db) : reporter := {|
     RS := unit; r_init := tt;
-    r_process := fun i _ ln =>
-      let it := get_report_item c (perm_day i) d ln in
+    r_process := fun perm _ ln =>
+      let it := get_report_item c perm d ln in
       (tt, [checked (if beq (rc_template c) (b "left-aligned") then render_left c it else render_default c it)], None);
-    r_flush := fun _ => [];
+    r_flush := fun _ _ => [];
     r_panic := fun _ => None
   |}.
 
   (** summaryReporterTemplate *)
   Definition rep_summary (c : rconfig) (d : db) : reporter := {|
     RS := unit; r_init := tt;
-    r_process := fun i _ ln => (tt, [checked (render_summary c (get_report_item c (perm_day i) d ln))], None);
-    r_flush := fun _ => [];
+    r_process := fun perm _ ln => (tt, [checked (render_summary c (get_report_item c perm d ln))], None);
+    r_flush := fun _ _ => [];
     r_panic := fun _ => None
   |}.
 
@@ -237,9 +239,9 @@ Section Reporters.
 
   Definition rep_old (c : rconfig) (d : db) : reporter := {|
     RS := unit; r_init := tt;
-    r_process := fun i _ ln =>
-      (tt, unchecked (fdate c (ln_time ln) ++ [c_lf]) :: old_rows c d ln ++ old_totals c (perm_day i) d ln, None);
-    r_flush := fun _ => [];
+    r_process := fun perm _ ln =>
+      (tt, unchecked (fdate c (ln_time ln) ++ [c_lf]) :: old_rows c d ln ++ old_totals c perm d ln, None);
+    r_flush := fun _ _ => [];
     r_panic := fun _ => None
   |}.
 
@@ -279,7 +281,7 @@ Section Reporters.
       | Some (Some (p, n)) => (st, [unchecked (render_single c (ln_time ln) p n)], None)
       | Some None => (Some (Panic (b "single_reporter.go:44 index out of range")), [], None)
       end;
-    r_flush := fun _ => [];
+    r_flush := fun _ _ => [];
     r_panic := fun st => match st with Some (Panic site) => Some site | None => None end
   |}.
 
@@ -296,7 +298,7 @@ Section Reporters.
     RS := accumulator NM; r_init := [];
     r_process := fun _ acc ln =>
       (fold_left (fun a nv => acc_add NM (fst nv) (snd nv) a) (byfood_contributions d (rc_single_element c) ln) acc, [], None);
-    r_flush := fun acc =>
+    r_flush := fun perm_flush acc =>
       map (fun t => let '(name, p, n, s) := t in unchecked (f10_2 s ++ [c_tab] ++ name ++ [c_lf]))
           (totals_of_acc perm_flush acc);
     r_panic := fun _ => None
@@ -320,7 +322,7 @@ Section Reporters.
                                    else []) (ln_elems ln), None)
         else (tt, [], Some (EUnmodelled (b "regexp")))
       end;
-    r_flush := fun _ => [];
+    r_flush := fun _ _ => [];
     r_panic := fun _ => None
   |}.
 
@@ -328,15 +330,15 @@ Section Reporters.
   Definition tree_add_all (root : tree NM) (els : elements) : tree NM :=
     fold_left (fun t nv => tree_add NM t (fst nv) (snd nv)) els root.
 
-  Definition balance_rows (collapse collapse_last : bool) (root : tree NM) : list (row NM) :=
+  Definition balance_rows (perm_flush : list bytes -> list bytes) (collapse collapse_last : bool) (root : tree NM) : list (row NM) :=
     let ot := order_tree NM perm_flush root in
     if collapse then print_collapsed NM ot else print_node NM collapse_last O ot.
 
   Definition rep_balance (c : rconfig) : reporter := {|
     RS := tree NM; r_init := empty_root NM;
     r_process := fun _ t ln => (tree_add_all t (ln_elems ln), [], None);
-    r_flush := fun t =>
-      map (fun r => (render_row NM r, rc_collapse c)) (balance_rows (rc_collapse c) (rc_collapse_last c) t);
+    r_flush := fun perm_flush t =>
+      map (fun r => (render_row NM r, rc_collapse c)) (balance_rows perm_flush (rc_collapse c) (rc_collapse_last c) t);
     r_panic := fun _ => None
   |}.
 
@@ -354,8 +356,8 @@ Section Reporters.
     r_process := fun _ st ln =>
       let cs := bal_single_contributions d (rc_single_element c) ln in
       ((tree_add_all (fst st) cs, fold_left (fun a nv => add NM a (snd nv)) cs (snd st)), [], None);
-    r_flush := fun st =>
-      map (fun r => (render_row NM r, rc_collapse c)) (balance_rows (rc_collapse c) (rc_collapse_last c) (fst st))
+    r_flush := fun perm_flush st =>
+      map (fun r => (render_row NM r, rc_collapse c)) (balance_rows perm_flush (rc_collapse c) (rc_collapse_last c) (fst st))
       ++ [checked (brepeat (b "-") 11 ++ b "|" ++ [c_lf]);
           checked (f10_2 (snd st) ++ b " | " ++ rc_single_element c ++ [c_lf])];
     r_panic := fun _ => None
@@ -366,7 +368,7 @@ Section Reporters.
     RS := accumulator NM; r_init := [];
     r_process := fun _ acc ln =>
       (fold_left (fun a nv => acc_add NM (fst nv) (snd nv) a) (contributions d ln) acc, [], None);
-    r_flush := fun acc =>
+    r_flush := fun perm_flush acc =>
       match acc with
       | [] => []
       | _ =>
@@ -387,8 +389,20 @@ Section Reporters.
     end.
 
   (** stable sort on the value only, starting from the names in sorted order *)
+  Definition value_less (desc : bool) (x y : bytes * T) : bool :=
+    if desc then ltb NM (snd y) (snd x) else ltb NM (snd x) (snd y).
+
+  (** sort.SliceStable's insertion sort (what it runs for up to 20 elements):
+      elements are taken left to right and each moves left while it is less
+      than its predecessor.  [revl] is the sorted prefix, reversed. *)
+  Fixpoint go_insert (less : bytes * T -> bytes * T -> bool) (x : bytes * T) (revl : elements) : elements :=
+    match revl with
+    | [] => [x]
+    | y :: r => if less x y then y :: go_insert less x r else x :: revl
+    end.
+
   Definition sort_by_value (desc : bool) (l : elements) : elements :=
-    isort (fun x y => negb (if desc then ltb NM (snd x) (snd y) else ltb NM (snd y) (snd x))) l.
+    rev (fold_left (fun revl x => go_insert (value_less desc) x revl) l []).
 
   Definition named_in_order (perm : list bytes -> list bytes) (acc : elements) : elements :=
     filter_some (map (fun n => option_map (fun v => (n, v)) (lookup n acc)) (sort_bytes (perm (keys acc)))).
@@ -398,7 +412,7 @@ Section Reporters.
   Definition rep_quantity (desc : bool) : reporter := {|
     RS := elements; r_init := [];
     r_process := fun _ acc ln => (fold_left (fun a nv => qty_add (fst nv) (snd nv) a) (ln_elems ln) acc, [], None);
-    r_flush := fun acc =>
+    r_flush := fun perm_flush acc =>
       map (fun nv => unchecked (f2 (snd nv) ++ [c_tab] ++ fst nv ++ [c_lf]))
           (sort_by_value desc (named_in_order perm_flush acc));
     r_panic := fun _ => None
@@ -412,7 +426,7 @@ Section Reporters.
                               | Some _ => a
                               | None => if existsb (beq (fst nv)) a then a else a ++ [fst nv]
                               end) (ln_elems ln) l, [], None);
-    r_flush := fun l => map (fun n => unchecked (n ++ [c_lf])) (sort_bytes (perm_flush l));
+    r_flush := fun perm_flush l => map (fun n => unchecked (n ++ [c_lf])) (sort_bytes (perm_flush l));
     r_panic := fun _ => None
   |}.
 
@@ -442,7 +456,7 @@ Section Reporters.
   Definition rep_csv_log : reporter := {|
     RS := unit; r_init := tt;
     r_process := fun _ _ ln => (tt, map (fun r => checked (csv_record r)) (csv_log_rows ln), None);
-    r_flush := fun _ => [];
+    r_flush := fun _ _ => [];
     r_panic := fun _ => None
   |}.
 
@@ -465,7 +479,7 @@ Section Reporters.
   Definition rep_print (c : rconfig) : reporter := {|
     RS := unit; r_init := tt;
     r_process := fun _ _ ln => (tt, print_chunks c ln, None);
-    r_flush := fun _ => [];
+    r_flush := fun _ _ => [];
     r_panic := fun _ => None
   |}.
 
